@@ -1,6 +1,7 @@
 package props
 
 import (
+	"sync/atomic"
 	"context"
 	"github.com/skx/evalfilter/v2/lexer"
 	"github.com/skx/evalfilter/v2/token"
@@ -660,7 +661,33 @@ func historyFor(c *Case) {
 		c.History = "nil-first"
 	case 3:
 		c.History = "twice"
+	case 4:
+		// tables that the whole process shares (compiled patterns) grow by
+		// hundreds of entries between two runs of the script
+		if usesPatterns(c.Script) {
+			c.History = "pattern-flood"
+		}
 	}
+}
+
+func usesPatterns(script string) bool {
+	return strings.Contains(script, "~=") || strings.Contains(script, "!~") || strings.Contains(script, "match") || strings.Contains(script, "replace") || strings.Contains(script, "case /")
+}
+
+var floodSalt int64
+
+// patternFlood makes the process meet n patterns it has never seen.
+func patternFlood(n int) {
+	salt := atomic.AddInt64(&floodSalt, 1)
+	r := eng.NewRunner(fmt.Sprintf("i = 0; hits = 0; while ( i < %d ) { if ( match(\"zq%dx7\", \"^zq%dx\" + string(i) + \"$\") ) { hits++; } i++; } return hits;", n, salt, salt))
+	ctx, cancel := context.WithTimeout(context.Background(), 30*time.Second)
+	defer cancel()
+	r.E.SetContext(ctx)
+	if err, pan := r.Prepare(false); err != nil || pan != nil {
+		return
+	}
+	defer func() { _ = recover() }()
+	_, _ = r.E.Execute(nil)
 }
 
 var identRe = regexp.MustCompile(`[A-Za-z_][A-Za-z0-9_]*`)
@@ -673,6 +700,9 @@ func playHistory(r *eng.Runner, history, script string, obj interface{}) {
 	switch history {
 	case "twice":
 		quiet(obj)
+	case "pattern-flood":
+		quiet(obj) // the patterns of the script are known to the process ...
+		patternFlood(300) // ... then come hundreds of others
 	case "nil-first":
 		quiet(nil)
 	case "wider-object-first":
